@@ -59,6 +59,10 @@ U_DstRefB == {N(("a" :> D1("y", S1)), <<>>), N(("a" :> D1("y", S1)) @@ ("zz" :> 
               N(("zz" :> D1("z", S1)) @@ ("b" :> D1("y", Sx)), <<>>), N(("a" :> L1) @@ ("zz" :> L(<<Sx>>)), <<>>),
               N(("b" :> S1), <<>>), N(("a" :> Nil) @@ ("zz" :> L(<<Sx, S1>>)), <<>>), N(("a" :> D1("b", D1("y", S1))), <<>>)}
 
+\* destinations whose reference does NOT evaluate to a container: it refers to a primitive, or to nothing at all
+U_DstRefPrim == {N(("zz" :> S1) @@ ("a" :> Alias("zz", S1)), <<>>), N(("zz" :> Sx) @@ ("b" :> Alias("zz", Sx)) @@ ("a" :> L1), <<>>),
+                 N(("zz" :> S1) @@ ("a" :> D1("b", Alias("zz", S1))), <<>>)}
+
 \* per-field paths THROUGH A LIST INDEX (the policy tree then holds nil placeholders in front of the index): lists whose
 \* elements are lists / dictionaries that contain the same indices and names again
 IdxVals  == {L(<<L(<<S1, Sx>>), L(<<S1>>)>>), L(<<D1("b", L1), D1("b", L(<<Sx, S1>>))>>), L(<<L(<<Sx>>), D1("b", L1)>>),
